@@ -93,6 +93,16 @@ def parse(text):
             raise StructParseError(f"continuation line not supported: {raw}")
         if not low:
             continue
+        if low.startswith("!") and not low.startswith("!$"):
+            continue
+        # The end directive of an OpenMP loop-associated construct is
+        # optional: once its DO has been closed, anything but the matching
+        # end directive closes the construct implicitly.
+        while (cur.kind == "dir" and cur.name in OMP_LOOPDIRS and
+               cur.children and cur.children[0].kind == "do" and
+               getattr(cur.children[0], "closed", False) and
+               " ".join(low.split()) != "!$" + "omp end " + cur.name[4:]):
+            cur = cur.parent
         if low.startswith("!$"):
             mat = re.match(r"!\$(omp|acc)\s+(.*)$", low)
             if not mat:
@@ -130,8 +140,6 @@ def parse(text):
                 raise StructParseError(f"unknown directive: {raw}")
             Blk("alone", f"{fam} {name}", lno, low, cur)
             continue
-        if low.startswith("!"):
-            continue
         # ---- ordinary statements --------------------------------------
         is_do = re.match(r"(\w+\s*:\s*)?do(\s+\w+\s*=|\s+while\b|\s*$)", low)
         if is_do:
@@ -147,6 +155,7 @@ def parse(text):
             pending_acc = None
         if re.match(r"end\s*do\b", low):
             if cur.kind == "do":
+                cur.closed = True
                 cur = cur.parent
                 if cur.kind == "accloop":
                     cur = cur.parent
